@@ -230,7 +230,7 @@ def run_case(case):
     sample = {"kind": case["kind"], "sessions": [(G.chain_label(s["chain"]), s["header"], len(s["members"])) for s in case["sessions"]], "members": len(model), "archive_bytes": len(allb)}
     if viol and any(c["f"] == "PPMD" for s in case["sessions"] for c in s["chain"]):
         for s in case["sessions"]:
-            if any(c["f"] == "PPMD" for c in s["chain"]) and K.pyppmd_faulty(s["chain"], b"".join(G.materialise(m["content"]) for m in s["members"])):
+            if any(c["f"] == "PPMD" for c in s["chain"]) and K.pyppmd_faulty(s["chain"], [G.materialise(m["content"]) for m in s["members"]]):
                 viol = [{"key": "codec-library/pyppmd-roundtrip", "what": "pyppmd alone cannot round-trip this input (symptom: %s)" % viol[0]["what"][:150]}]
                 break
     if viol:
